@@ -1023,7 +1023,7 @@ def run(ctx):
     gen_rmcp_bridging(ctx, judge, ctx.rng('c04-bridging'))
     for tr in ('ipmbdev', 'aardvark'):
         gen_i2c_probes(ctx, judge, tr)
-    gen_rmcp_threads(ctx, 6 if quick else 90)
+    gen_rmcp_threads(ctx, 6 if quick else 40)
     gen_field_sweep(ctx, judge)
     gen_rmcp_exhaustive(ctx, judge, 4 if quick else 5, (0, 1, 2, 3), BASE9)
     for q in ((1, 0), (0, 1), (1, 1)):
